@@ -243,10 +243,12 @@ def build_tar(members, comp="", corrupt=None, fmt=tarfile.PAX_FORMAT) -> bytes:
             else:
                 ti.size = len(m["data"])
                 tf.addfile(ti, io.BytesIO(m["data"]))
-                offs[i] = ti.offset_data
     data = buf.getvalue()
     if corrupt:
         assert comp == "" and corrupt[1] == "flip"
+        with tarfile.open(fileobj=io.BytesIO(data), mode="r:") as rd:      # payload offsets as a reader sees them
+            offs = {i: ti.offset_data for i, ti in enumerate(rd.getmembers())}
+        assert len(members[corrupt[0]]["data"]) > 0
         b = bytearray(data)
         b[offs[corrupt[0]] + len(members[corrupt[0]]["data"]) // 2] ^= 0x5A
         data = bytes(b)
@@ -562,9 +564,9 @@ def run_case(case, wroot, audit=True):
     """One abstract case -> list of traces (one per variant)."""
     from sharepoint2text.parsing.extractors import archive_extractor as ae
     rng = random.Random(case["seed"])
-    root = os.path.join(wroot, f"c{case['n']}")
+    root = os.path.join(wroot, "case")           # one sandbox per worker, emptied after every case
     for d in ("tmp", "cwd", "host"):
-        os.makedirs(os.path.join(root, d))
+        os.makedirs(os.path.join(root, d), exist_ok=True)
     import tempfile
     tempfile.tempdir = os.path.join(root, "tmp")
     STATE["tmpdir"] = os.path.realpath(tempfile.tempdir)
@@ -626,7 +628,14 @@ def run_case(case, wroot, audit=True):
         os.chdir(wroot)
         STATE["mute"] += 1
         try:
-            shutil.rmtree(root, ignore_errors=True)
+            for d in (root, os.path.join(root, "tmp"), os.path.join(root, "cwd"), os.path.join(root, "host")):
+                for x in os.listdir(d):
+                    px = os.path.join(d, x)
+                    if os.path.isdir(px) and not os.path.islink(px):
+                        if d != root:
+                            shutil.rmtree(px, ignore_errors=True)
+                    else:
+                        os.unlink(px)
         finally:
             STATE["mute"] -= 1
     return traces
@@ -677,6 +686,8 @@ def worker_main(job_file, out_file):
     else:
         limit = None
     warm_up(wroot)
+    gc.collect()
+    gc.freeze()          # the consumer history "del + gc.collect()" then only scans objects of the case
     if job.get("audit", True):
         arm()
     traces = []
